@@ -4,7 +4,9 @@
    present, END_STREAM on the head), DATA frame lengths, body length / digest / first bytes, how the
    stream ended. *)
 From Coq Require Import String.
-From AV Require Import Lib.Base Lib.V Gen.Consts H2.Prepare H2.SendLoop.
+From AV Require Import Lib.Base Lib.V Gen.Consts.
+From AV Require Export H2.Prepare H2.SendLoop.
+From AV Require Import H2.Spec.
 Open Scope N_scope.
 
 Inductive cev := BC (len fill : N) | BP | BE.
@@ -18,14 +20,15 @@ Record scase := mkS {
 }.
 Definition case := list scase.
 
-(* chunk bytes: byte i = (fill + i) mod 251 *)
+(* chunk bytes: byte i = (fill + i) mod 251, fill < 251 (written as a wrapping counter) *)
 Fixpoint genb (n : nat) (i : N) : bytes :=
-  match n with O => [] | S n' => (i mod 251) :: genb n' (i + 1) end.
+  match n with O => [] | S n' => i :: genb n' (if i + 1 =? 251 then 0 else i + 1) end.
 Definition ev_of (e : cev) : bev :=
-  match e with BC len fill => BChunk (genb (N.to_nat len) fill) | BP => BPending | BE => BErr end.
+  match e with BC len fill => BChunk (genb (N.to_nat len) (fill mod 251)) | BP => BPending | BE => BErr end.
 
-Definition digest (b : bytes) : N :=
-  fold_left (fun h x => (h * 31 + x + 1) mod 4294967291) b 7.
+(* position-sensitive checksum: running sums s1 = sum (b+1), s2 = sum of the partial s1 *)
+Definition digest (b : bytes) : N * N :=
+  fold_left (fun '(s1, s2) x => let s1' := s1 + x + 1 in (s1', s2 + s1')) b (0, 0).
 
 Definition x_keep : bytes := [120;45;107;101;101;112].
 (* alphabetical, as the harness sorts them *)
@@ -54,8 +57,14 @@ Definition run_stream (s : scase) : V :=
   let fr := frames_of t in
   let fr := match s_seen s with Some k => firstn (N.to_nat k) fr | None => fr end in
   let data := concat (map fst fr) in
-  VT "s" [head; VL (map (fun f => VN (lenN (fst f))) fr); VN (lenN data); VN (digest data);
+  let d := digest data in
+  VT "s" [head; VL (map (fun f => VN (lenN (fst f))) fr); VN (lenN data); VN (fst d); VN (snd d);
           VBytes (firstn 16 data);
           VT (if s_cut s then "cut" else end_tag o) []].
 
-Definition run_C08 (c : case) : V := VL (map run_stream c).
+(* the known-finding classifier of H2/Spec.v, evaluated on the case (diffed against the harness's) *)
+Definition known_stream (s : scase) : bool :=
+  known_status_body (mkResp (s_head s) (s_status s) (s_hdrs s) (s_size s) []).
+
+Definition run_C08 (c : case) : V :=
+  VT "case" [VBool (existsb known_stream c); VL (map run_stream c)].
